@@ -17,7 +17,7 @@
 
    The theorems over R use the classical-real axioms of the standard library (printed). *)
 From Coq Require Import List Reals.
-From GB Require Import Base.Field Gauss.Moment1D Proofs.DiffOpP Proofs.GramP.
+From GB Require Import Base.Field Gauss.Moment1D Model.MomentInt Proofs.DiffOpP Proofs.GramP.
 Import ListNotations.
 Local Open Scope R_scope.
 
@@ -98,6 +98,38 @@ Theorem C17_perturbation :
   - (INR (length l) * eps * sum_sq l) <= qf M l.
 Proof. exact (fun S I v => gram_perturbation S v). Qed.
 Print Assumptions C17_perturbation.
+
+(* 5. Model-level facts that ARE algebraic (any field, no axioms): the one-dimensional primitive
+      integrals from which the overlap and kinetic models are assembled are symmetric under exchanging
+      the two functions:  S_ab(i,j) = S_ba(j,i)  and  <d^2 a|b>(i,j) = <d^2 b|a>(j,i)
+      ([Sfun] = prefactor x Gaussian moment, the value of every entry of the code's table by
+      C01_table_exact; [negA] = minus the derivative with respect to the left function's coordinate,
+      the operator of the code's derivative recursion by C02's diffop_slice_valid).  Symmetry of the
+      ASSEMBLED matrices is by construction (lower blocks are transposes: Model/Assembly.two_symm_blocks,
+      Proofs/OverlapP.two_symm_integral_unfold) and is the subject of C11. *)
+Theorem C17_overlap_prim_symm :
+  forall (F : Type) (K : Fops F), is_field K ->
+  forall (Ax Bx alpha beta : F), Model.MomentInt.psum K alpha beta <> f0 K ->
+  forall i j : nat, Sfun K Bx Ax beta alpha j i = Sfun K Ax Bx alpha beta i j.
+Proof. exact (fun F K Kf Ax Bx alpha beta Hp => overlap_prim_symm K Kf Ax Bx alpha beta Hp). Qed.
+Print Assumptions C17_overlap_prim_symm.
+
+Theorem C17_kinetic_prim_symm :
+  forall (F : Type) (K : Fops F), is_field K ->
+  forall (Ax Bx alpha beta : F), Model.MomentInt.psum K alpha beta <> f0 K -> fadd K (f1 K) (f1 K) <> f0 K ->
+  forall i j : nat,
+  iterop (negA K beta) 2 (Sfun K Bx Ax beta alpha) j i = iterop (negA K alpha) 2 (Sfun K Ax Bx alpha beta) i j.
+Proof. exact (fun F K Kf Ax Bx alpha beta Hp H2 => kinetic_prim_symm K Kf Ax Bx alpha beta Hp H2). Qed.
+Print Assumptions C17_kinetic_prim_symm.
+
+(* One centre, one primitive pair, one axis: the Gaussian moment functional (variance v >= 0) is
+   positive on squares,  E(f * f) >= 0  ([hank v 0 f g] = sum_i f_i E(y^i g) = E(f g)).
+   PARTIAL: degree <= 3 only; the statement for all degrees (positive semi-definiteness of the Hankel
+   matrix of the moments (2k-1)!! v^k) is not proved. *)
+Theorem C17_one_centre_psd_partial :
+  forall v c0 c1 c2 c3 : R, 0 <= v -> 0 <= hank v 0 [c0; c1; c2; c3] [c0; c1; c2; c3].
+Proof. exact hankel3_psd_partial. Qed.
+Print Assumptions C17_one_centre_psd_partial.
 
 (* ---- the hypotheses are satisfiable: R^2 with the dot product; a linearly dependent family; a
         degenerate (semi-definite) space; unit diagonal; the perturbation hypothesis ---- *)
